@@ -13,7 +13,7 @@ ENC = ("fim.graph.networkx_mixin.NetworkXMixin._find_node", "fim.graph.networkx_
        "fim.graph.networkx_property_graph.NetworkXPropertyGraph.add_node", "fim.graph.networkx_property_graph.NetworkXPropertyGraph.delete_node",
        "fim.graph.networkx_property_graph.NetworkXPropertyGraph.update_nodes_property",
        "fim.graph.networkx_property_graph.NetworkXGraphImporter.delete_graph")
-NODE_IDS = ['n0', 'n1', 'n9']
+NODE_IDS = ['n0', 'n1', 'n9', 'm1']     # m1 exists only in the OTHER graph g2, n9 nowhere
 OPS = ["add_node", "delete_node", "add_link", "update_node_property", "unset_node_property", "update_nodes_property",
        "update_node_properties", "update_link_property", "unset_link_property", "import_new", "reimport_same_id",
        "delete_graph", "delete_then_reimport", "import_without_nodeid"]
@@ -82,7 +82,7 @@ def _mk(op, disjoint):
     def h_iso(c: List[int], v: List[int], r: List[int], third: bool, xi: int, yi: int, l: int, k: int, val: int) -> bool:
         """
         pre: len(c) == 4 and len(v) == 4 and len(r) == 2
-        pre: 0 <= xi < 3 and 0 <= yi < 3 and 0 <= k < 7
+        pre: 0 <= xi < 4 and 0 <= yi < 4 and 0 <= k < 7
         post: R(_)
         """
         begin()
@@ -162,6 +162,15 @@ def _mk_clone(disjoint):
         tgt.update_node_property(node_id=NODE_IDS[xi], prop_name=PNAMES[k], prop_val=tok(val))
         tgt.update_link_property(node_a='n0', node_b='n1', kind=Rr[1], prop_name='Q', prop_val=tok(val))
         tgt.delete_node(node_id=NODE_IDS[1 - xi])
+        if content(imp, other) != keep or snapshot(imp, 'g2') != before2:
+            return False
+        # adding to one side: every inherited node is still there, the other side is untouched
+        tgt.add_node(node_id='fresh1', label=C[0], props={'P': tok(val)})
+        tgt.add_node(node_id='fresh2', label=C[1])
+        now = content(imp, oid)
+        ids = [dict(p).get('NodeID') for p in now[0]]
+        if sorted(ids) != sorted([NODE_IDS[xi], 'fresh1', 'fresh2']):
+            return False
         if content(imp, other) != keep or snapshot(imp, 'g2') != before2:
             return False
         return True
